@@ -277,6 +277,19 @@ func All() []Driver {
 			}),
 		)
 	}
+	// D21: one goroutine's source is an empty list (the splat item is cleared without ever
+	// having been set), the other's is not
+	emptyFor0 := func(i int) *hcl.EvalContext {
+		c := ctxFor(i)
+		if i == 0 {
+			c.Variables["l"] = cty.ListValEmpty(objs(0).Type().ElementType())
+		}
+		return c
+	}
+	ds = append(ds,
+		exprDriver("D21-emptysplat-2", "splat over an empty list in one goroutine and over a non-empty list in the other", "l[*].a", 2, emptyFor0),
+		exprDriver("D21-emptysplat-3", "the same with three goroutines", "[l[*].a, l[*].b[*]]", 3, emptyFor0),
+	)
 	// D10: function call with an expanded final argument on one shared expression
 	ds = append(ds,
 		exprDriver("D10-call-expansion-2", "call with expansion of a splat result, evaluated concurrently and once per for element", `[join(l[*].a...), [for o in l : join(o.b...)]]`, 2, func(i int) *hcl.EvalContext {
